@@ -94,4 +94,52 @@ def celtLossRun : Int → List (Option Nat) → Int
   | ld, some lm :: rest => celtLossRun (celtLossStep ld lm) rest
   | _, none :: rest => celtLossRun (celtLossGood 0) rest
 
+/-! ### which concealment a lost CELT frame gets (celt_decoder.c:633-639, 689-691, 953, 1098, 1552)
+
+  `celt_decode_lost` conceals with the pitch-based PLC unless `noise_based = loss_duration >= 40 ||
+  start != 0 || st->skip_plc` (no deep PLC in this configuration).  The noise branch sets `skip_plc`
+  ("skip regular PLC until we get two consecutive packets"); a decoded frame clears it only when
+  `loss_duration` is already 0 on entry, i.e. when the previous frame was decoded too; init / reset
+  set it.  The threshold 40 is a literal in the C code and is regenerated behaviourally. -/
+
+/-- The part of `CELTDecoder` that decides the kind of concealment. -/
+structure CeltPlc where
+  ld : Int          -- loss_duration
+  skip : Bool       -- skip_plc
+  deriving DecidableEq, Repr
+
+inductive PlcKind where
+  | pitch | noise
+  deriving DecidableEq, Repr
+
+/-- `noise_based` (:639). `start` is the start band (0, or 17 in hybrid mode). -/
+def celtLostKind (s : CeltPlc) (start : Int) : PlcKind :=
+  if s.ld ≥ celtNoiseFrom ∨ start ≠ 0 ∨ s.skip = true then .noise else .pitch
+
+/-- State after a concealed frame of `120·2^LM` samples (:691, :957). -/
+def celtLost (s : CeltPlc) (start : Int) (LM : Nat) : CeltPlc :=
+  { ld := celtLossStep s.ld LM, skip := if celtLostKind s start = .noise then celtSkipAfterNoise else s.skip }
+
+/-- State after a decoded frame (:1098, :1354). -/
+def celtGood (s : CeltPlc) (LM : Nat) : CeltPlc :=
+  { ld := celtLossGood LM, skip := if s.ld = 0 then false else s.skip }
+
+/-- State after `celt_decoder_init` / `OPUS_RESET_STATE` (:1552). -/
+def celtReset : CeltPlc := { ld := 0, skip := celtSkipAfterReset }
+
+/-- One frame event of a CELT decoder. -/
+inductive CeltEv where
+  | lost (LM : Nat) (start : Int)
+  | good (LM : Nat)
+  | reset
+  deriving DecidableEq, Repr
+
+/-- Run a history; returns the final state and, for every lost frame in order, the kind of concealment it got. -/
+def celtPlcRun : CeltPlc → List CeltEv → CeltPlc × List PlcKind
+  | s, [] => (s, [])
+  | s, .lost lm start :: rest =>
+    ((celtPlcRun (celtLost s start lm) rest).1, celtLostKind s start :: (celtPlcRun (celtLost s start lm) rest).2)
+  | s, .good lm :: rest => celtPlcRun (celtGood s lm) rest
+  | _, .reset :: rest => celtPlcRun celtReset rest
+
 end Opus.SilkPlcGains
